@@ -300,6 +300,10 @@ class C06(core.PropertyCheck):
         if impl["exc"]:
             return f"implementation raised {impl['exc']}"
         if case["kind"] == "cut":
+            if not model.get("atomic", True):
+                return "a real AST violates the hypothesis `atomicL` of theorem cut_spec (a marker node contains markers)"
+            if model.get("spec_hyp") and (not model["ok"] or model["units_out"] != model["between"]):
+                return "the model contradicts its own theorem cut_spec (driver/proof mismatch)"
             got_k = self.diag_kinds(impl["diags"])
             if sorted(got_k) != sorted(self.expected_diags(case, model)):
                 return f"diagnostics differ: model {self.expected_diags(case, model)} impl {got_k}"
@@ -447,6 +451,8 @@ class C06(core.PropertyCheck):
             tags += ["diag:" + k for k in self.diag_kinds(impl["diags"])]
             if model and model.get("ok") and (case["start"] or case["end"]):
                 tags.append("cut-ok")
+            if model and model.get("spec_hyp"):
+                tags.append("cut_spec-hypotheses-hold")
         else:
             tags += ["diag:" + d[1] for d in impl["diags"]]
         return tags
